@@ -25,6 +25,7 @@ class SimDisk:
         self.nmod = 0
         self.ino = {}
         self.fds = {}            # fake descriptor -> path
+        self.raws = {}           # fake descriptor -> SimRaw opened through os.open
         cwd = os.getcwd()
         self.cwds = sorted({cwd, os.path.normpath(cwd)} | ({os.path.realpath(cwd)} if not hasattr(os.stat, "__wrapped_sim__") else set()))
 
@@ -117,6 +118,52 @@ class SimDisk:
         text.mode = mode        # the builtin open() sets this attribute on the text layer as well
         return text
 
+    # -- descriptor level API (os.open / os.fdopen / os.write / os.read / os.close), reached through GlobalFS
+    def os_open(self, path, flags):
+        path = self.key(path)
+        acc = flags & (os.O_WRONLY | os.O_RDWR)
+        writing = acc in (os.O_WRONLY, os.O_RDWR)
+        reading = acc in (0, os.O_RDWR)
+        exists = path in self.files
+        if flags & os.O_CREAT and flags & os.O_EXCL and exists:
+            raise FileExistsError(errno.EEXIST, os.strerror(errno.EEXIST), path)
+        if not exists and not flags & os.O_CREAT:
+            raise FileNotFoundError(errno.ENOENT, os.strerror(errno.ENOENT), path)
+        f = self.fault
+        if f and f.get("kind") == "open-fail" and not f.get("fired") and f.get("on", "any") in ("any", "w" if writing else "r"):
+            f["fired"] = True
+            self.ev(path, "open-fail", f["errno"])
+            raise OSError(getattr(errno, f["errno"]), os.strerror(getattr(errno, f["errno"])), path)
+        if writing:
+            if not exists or flags & os.O_TRUNC:
+                self.files[path] = bytearray()
+                self.touch(path)
+            self.wopened.add((self.step, path))
+            self.state[path] = ("bot", "inflight", self.step)
+            self.ev(path, "os.open-w")
+        else:
+            self.ev(path, "os.open-r")
+        raw = SimRaw(self, path, reading, writing, append=bool(flags & os.O_APPEND))
+        self.raws[raw.fd] = raw
+        return raw.fd
+
+    def wrap_fd(self, fd, mode="r", buffering=-1, encoding=None, errors=None, newline=None):
+        raw = self.raws[fd]
+        m = mode.replace("t", "")
+        binary = "b" in m
+        bs = self.buffer_size if buffering in (-1, None) or buffering < 1 else buffering
+        if raw.reading and raw.writing:
+            buf = io.BufferedRandom(raw, buffer_size=bs)
+        elif raw.writing:
+            buf = io.BufferedWriter(raw, buffer_size=bs)
+        else:
+            buf = io.BufferedReader(raw, buffer_size=bs)
+        if binary:
+            return buf
+        text = io.TextIOWrapper(buf, encoding=encoding or "utf-8", errors=errors, newline=newline)
+        text.mode = mode
+        return text
+
     # -- metadata and namespace operations (reached through GlobalFS)
     def touch(self, path):
         """a modification of `path` happened; the simulated clock is a seam: file systems and kernels with coarse
@@ -205,7 +252,11 @@ class SimRaw(io.RawIOBase):
 
     @property
     def name(self):
-        return self.path
+        return getattr(self, "_name", self.path)
+
+    @name.setter
+    def name(self, v):          # tempfile assigns raw.name
+        self._name = v
 
     @property
     def mode(self):
@@ -337,6 +388,24 @@ class SimRaw(io.RawIOBase):
 
 
 # =========================================================================== process-wide virtualisation
+CURRENT = [None]       # the SimDisk of the history/reference that is running in this process (None: pass everything through)
+_INSTALLED = [False]
+
+
+def install_dispatch():
+    """installed ONCE per interpreter, BEFORE the library is imported: names that the library binds at import time
+    (`from os import stat`, `def load(..., open_fcn=open)`) then already are the dispatching wrappers"""
+    if _INSTALLED[0]:
+        return
+    _INSTALLED[0] = True
+    GlobalFS(None).install()
+
+
+def activate(disk):
+    CURRENT[0] = disk
+    install_dispatch()
+
+
 class GlobalFS:
     """Installs the simulated device for the whole (forked, short-lived) process, not only as the module attribute
     `open` of two library modules: builtins.open / io.open, os.stat / lstat, os.replace / rename / remove / unlink,
@@ -346,10 +415,16 @@ class GlobalFS:
     Simulated paths are relative names without a directory component; everything else is passed through."""
 
     def __init__(self, disk):
-        self.disk = disk
+        self._disk = disk
         self.real = {}
 
+    @property
+    def disk(self):
+        return self._disk if self._disk is not None else CURRENT[0]
+
     def is_sim(self, path):
+        if self.disk is None:
+            return False
         try:
             p = os.fspath(path)
         except TypeError:
@@ -364,7 +439,11 @@ class GlobalFS:
 
     def install(self):
         import builtins
-        d = self.disk
+
+        class _D:       # every access goes to the disk that is current NOW
+            def __getattr__(_, name):
+                return getattr(self.disk, name)
+        d = _D()
         real_open, real_stat, real_lstat = builtins.open, os.stat, os.lstat
         real_replace, real_rename, real_remove, real_unlink = os.replace, os.rename, os.remove, os.unlink
         real_fsync, real_fdatasync = os.fsync, os.fdatasync
@@ -372,12 +451,26 @@ class GlobalFS:
         fs = self
 
         def sim_open(file, mode="r", buffering=-1, encoding=None, errors=None, newline=None, closefd=True, opener=None):
+            if isinstance(file, int) and file >= SimRaw.FD_BASE and fs.disk is not None and file in fs.disk.raws:
+                return d.wrap_fd(file, mode, buffering, encoding, errors, newline)
+            if opener is not None and fs.disk is not None and not isinstance(file, int):
+                # emulate io.open's opener protocol, because the opener may itself go through the (simulated) os.open
+                # - tempfile.NamedTemporaryFile does
+                m = mode.replace("t", "").replace("b", "")
+                flags = {"r": os.O_RDONLY, "w": os.O_WRONLY | os.O_CREAT | os.O_TRUNC, "a": os.O_WRONLY | os.O_CREAT | os.O_APPEND,
+                         "x": os.O_WRONLY | os.O_CREAT | os.O_EXCL}.get(m.replace("+", ""), os.O_RDONLY)
+                if "+" in m:
+                    flags = (flags & ~(os.O_WRONLY | os.O_RDONLY)) | os.O_RDWR
+                fd = opener(file, flags)
+                if isinstance(fd, int) and fd in fs.disk.raws:
+                    return d.wrap_fd(fd, mode, buffering, encoding, errors, newline)
+                return real_open(fd, mode, buffering, encoding, errors, newline, True, None)
             if not isinstance(file, int) and fs.is_sim(file):
                 return d.open(fs.norm(file), mode, buffering, encoding, errors, newline)
             return real_open(file, mode, buffering, encoding, errors, newline, closefd, opener)
 
         def sim_stat(path, *a, **kw):
-            if not isinstance(path, int) and fs.is_sim(path):
+            if not isinstance(path, int) and fs.is_sim(path) and (fs.norm(path) in d.files or not _real_exists(path)):
                 return d.stat(fs.norm(path))
             return real_stat(path, *a, **kw)
 
@@ -386,8 +479,17 @@ class GlobalFS:
                 return d.stat(fs.norm(path))
             return real_lstat(path, *a, **kw)
 
+        def _real_exists(p):
+            try:
+                real_lstat(p)
+                return True
+            except OSError:
+                return False
+
         def sim_replace(src, dst, *a, **kw):
             s, t = fs.is_sim(src), fs.is_sim(dst)
+            if s and fs.norm(src) not in d.files and _real_exists(src):
+                s = False       # a temporary file that was created through an API the device does not emulate
             if s and t:
                 return d.rename(fs.norm(src), fs.norm(dst))
             if t and not s:
@@ -401,7 +503,7 @@ class GlobalFS:
             return real_replace(src, dst, *a, **kw)
 
         def sim_remove(path, *a, **kw):
-            if fs.is_sim(path):
+            if fs.is_sim(path) and (fs.norm(path) in d.files or not _real_exists(path)):
                 return d.remove(fs.norm(path))
             return real_remove(path, *a, **kw)
 
@@ -412,6 +514,43 @@ class GlobalFS:
                 return None
             return real_fsync(fd)
 
+        real_os_open, real_write, real_read, real_close = os.open, os.write, os.read, os.close
+
+        def sim_os_open(path, flags, mode=0o777, *, dir_fd=None):
+            if dir_fd is None and not isinstance(path, int) and fs.is_sim(path):
+                return d.os_open(fs.norm(path), flags)
+            return real_os_open(path, flags, mode, dir_fd=dir_fd) if dir_fd is not None else real_os_open(path, flags, mode)
+
+        def _raw(fd):
+            dk = fs.disk
+            return dk.raws.get(fd) if (dk is not None and isinstance(fd, int) and fd >= SimRaw.FD_BASE) else None
+
+        def sim_write(fd, data):
+            r = _raw(fd)
+            if r is not None:
+                view = memoryview(data).tobytes()
+                n = 0
+                while n < len(view):
+                    n += r.write(view[n:])
+                return n
+            return real_write(fd, data)
+
+        def sim_read(fd, n):
+            r = _raw(fd)
+            if r is not None:
+                b = bytearray(n)
+                k = r.readinto(b)
+                return bytes(b[:k])
+            return real_read(fd, n)
+
+        def sim_close(fd):
+            r = _raw(fd)
+            if r is not None:
+                fs.disk.raws.pop(fd, None)
+                return r.close()
+            return real_close(fd)
+
+        os.open, os.write, os.read, os.close = sim_os_open, sim_write, sim_read, sim_close
         real_access, real_fstat, real_chmod, real_utime = os.access, os.fstat, os.chmod, os.utime
 
         def sim_access(path, mode, *a, **kw):
@@ -463,6 +602,24 @@ class GlobalFS:
             os.sendfile = sim_sendfile
         os.lseek = sim_lseek
         os.access, os.fstat, os.chmod, os.utime = sim_access, sim_fstat, sim_chmod, sim_utime
+        try:
+            import fcntl
+            real_flock, real_lockf = fcntl.flock, fcntl.lockf
+
+            def sim_flock(fd, *a, **kw):
+                fdn = fd if isinstance(fd, int) else fd.fileno()
+                if fdn >= SimRaw.FD_BASE:
+                    return None         # advisory locks on the simulated device always succeed (single process)
+                return real_flock(fd, *a, **kw)
+
+            def sim_lockf(fd, *a, **kw):
+                fdn = fd if isinstance(fd, int) else fd.fileno()
+                if fdn >= SimRaw.FD_BASE:
+                    return None
+                return real_lockf(fd, *a, **kw)
+            fcntl.flock, fcntl.lockf = sim_flock, sim_lockf
+        except ImportError:
+            pass
         builtins.open = sim_open
         io.open = sim_open
         os.stat, os.lstat = sim_stat, sim_lstat
